@@ -3,5 +3,6 @@ CONSTANTS
   Threads = {"a", "b", "c"}
   NRec = 2
   WeakSharedLockAppend = FALSE
+  WeakKeepCap = 0
 INVARIANTS ExactlyOnce
 CHECK_DEADLOCK FALSE
